@@ -472,6 +472,317 @@ fn corruption_body(c: &Corruption, ctx: &mut CaseCtx) -> PropResult {
     Ok(())
 }
 
+// ---------------------------------------------------------------------------
+// the database's own lookup API against an independent walk
+
+#[derive(Clone, Debug, Serialize, Deserialize)]
+pub struct ApiCase {
+    pub class: String,
+}
+
+/// `superclasses`, `superclasses_iter`, `has_superclass` and `find_default_property` of `db`
+/// compared with a plain walk over the `superclass` names.
+fn api_agrees(db: &ReflectionDatabase, class: &str, all_names: &[String]) -> Result<(), Fail> {
+    let desc = &db.classes[class];
+    // own walk
+    let mut chain: Vec<&str> = vec![class];
+    let mut cur = desc;
+    while let Some(s) = &cur.superclass {
+        let Some(next) = db.classes.get(s.as_ref()) else { break };
+        if chain.len() > 200 {
+            break;
+        }
+        chain.push(next.name.as_ref());
+        cur = next;
+    }
+    let via_vec: Vec<String> = no_panic("ReflectionDatabase::superclasses", || db.superclasses(desc))?
+        .map(|v| v.iter().map(|c| c.name.to_string()).collect())
+        .unwrap_or_default();
+    ensure!(
+        via_vec.iter().map(|s| s.as_str()).collect::<Vec<_>>() == chain,
+        "db:api:superclasses",
+        "superclasses({class}) = {:?}, the superclass links give {:?}",
+        via_vec,
+        chain
+    );
+    let via_iter: Vec<String> = no_panic("ReflectionDatabase::superclasses_iter", || db.superclasses_iter(desc).map(|c| c.name.to_string()).collect())?;
+    ensure!(
+        via_iter.iter().map(|s| s.as_str()).collect::<Vec<_>>() == chain,
+        "db:api:superclasses_iter",
+        "superclasses_iter({class}) = {:?}, the superclass links give {:?}",
+        via_iter,
+        chain
+    );
+    ensure!(
+        db.classes[*chain.last().unwrap()].superclass.is_none(),
+        "db:api:chain-does-not-end-at-a-root",
+        "chain of {class} stops at {} which has a superclass",
+        chain.last().unwrap()
+    );
+    for other in all_names {
+        let want = chain.contains(&other.as_str());
+        let got = no_panic("ReflectionDatabase::has_superclass", || db.has_superclass(desc, &db.classes[other.as_str()]))?;
+        ensure!(got == want, "db:api:has_superclass", "has_superclass({class}, {other}) = {got}, the superclass links say {want}");
+    }
+    let mut names: HashSet<&str> = HashSet::new();
+    for c in &chain {
+        names.extend(db.classes[*c].default_properties.keys().map(|k| k.as_ref()));
+        names.extend(db.classes[*c].properties.keys().map(|k| k.as_ref()));
+    }
+    names.insert("ZzNoSuchProperty");
+    for name in names {
+        let want = chain.iter().find_map(|c| db.classes[*c].default_properties.get(name));
+        let got = no_panic("ReflectionDatabase::find_default_property", || db.find_default_property(desc, name))?;
+        let same = match (want, got) {
+            (None, None) => true,
+            (Some(a), Some(b)) => GVal::from_variant(a, &|_| GRef::None) == GVal::from_variant(b, &|_| GRef::None),
+            _ => false,
+        };
+        ensure!(same, "db:api:find_default_property", "find_default_property({class}, {name}) = {:?}, nearest default along the chain is {:?}", got, want);
+    }
+    Ok(())
+}
+
+fn api_body(c: &ApiCase, ctx: &mut CaseCtx) -> PropResult {
+    let db = dbview::db();
+    let all = dbview::all_class_names();
+    let depth = dbview::chain(db, &c.class).map(|v| v.len()).unwrap_or(0);
+    ctx.nontrivial_if(depth >= 2);
+    ctx.label(if depth >= 7 { "chain>=7" } else if depth >= 4 { "chain4-6" } else { "chain<4" });
+    ctx.add_evals(all.len() as u64);
+    api_agrees(db, &c.class, &all)
+}
+
+// ---------------------------------------------------------------------------
+// generated databases ("any database regenerated from a newer dump"): coherent by construction,
+// deeper and differently shaped than the bundled one
+
+#[derive(Clone, Debug, Serialize, Deserialize)]
+pub struct GenClass {
+    /// index of the superclass among the earlier classes (None = a root)
+    pub parent: Option<usize>,
+    /// property slots this class declares (if no ancestor declares them): (slot, has alias, serializes through the alias)
+    pub declares: Vec<(u8, bool, bool)>,
+    /// defaults this class sets: (slot, value seed) - kept only for visible properties
+    pub defaults: Vec<(u8, u64)>,
+}
+
+#[derive(Clone, Debug, Serialize, Deserialize)]
+pub struct GenDb {
+    pub classes: Vec<GenClass>,
+    pub target_sel: u16,
+    pub slot_sel: u16,
+    pub value_seed: u64,
+}
+
+const SLOT_TYPES: [VariantType; 6] = [VariantType::Bool, VariantType::Int32, VariantType::String, VariantType::Float32, VariantType::Vector3, VariantType::Int64];
+
+fn slot_name(s: u8) -> String {
+    format!("Prop{s}")
+}
+
+fn slot_value(s: u8, seed: u64) -> GVal {
+    // plain finite values: this check is about lookups, not about value encodings (C01/C02)
+    let k = (seed % 100_000) as i64 - 500;
+    match SLOT_TYPES[s as usize % 6] {
+        VariantType::Bool => GVal::Bool(seed % 2 == 1),
+        VariantType::Int32 => GVal::Int32(k as i32),
+        VariantType::String => GVal::String(format!("v{k}")),
+        VariantType::Float32 => GVal::Float32((k as f32 * 0.25).to_bits()),
+        VariantType::Vector3 => GVal::Vector3([(k as f32).to_bits(), 1.5f32.to_bits(), (-(k as f32) * 0.5).to_bits()]),
+        _ => GVal::Int64(k * 1_000_003),
+    }
+}
+
+fn gen_db_strategy() -> BoxedStrategy<GenDb> {
+    let class = |i: usize| {
+        (
+            any::<u16>(),
+            0u8..10,
+            proptest::collection::vec((0u8..6, any::<bool>(), any::<bool>()), 0..3),
+            proptest::collection::vec((0u8..6, 1u64..1000), 0..3),
+        )
+            .prop_map(move |(psel, shape, declares, defaults)| GenClass {
+                parent: if i == 0 {
+                    None
+                } else if shape < 7 {
+                    // chain-shaped: deep hierarchies are the point
+                    Some(i - 1)
+                } else if shape == 9 && i > 3 {
+                    None
+                } else {
+                    Some((psel as usize * i) >> 16)
+                },
+                declares,
+                defaults,
+            })
+    };
+    (2usize..24)
+        .prop_flat_map(move |n| ((0..n).map(class).collect::<Vec<_>>(), any::<u16>(), any::<u16>(), 1u64..100_000))
+        .prop_map(|(classes, target_sel, slot_sel, value_seed)| GenDb { classes, target_sel, slot_sel, value_seed })
+        .boxed()
+}
+
+struct BuiltDb {
+    db: ReflectionDatabase<'static>,
+    /// per class: chain of class indices (self first)
+    chains: Vec<Vec<usize>>,
+    /// per class: slots visible (declared by itself or an ancestor)
+    visible: Vec<Vec<u8>>,
+}
+
+fn build_db(g: &GenDb) -> BuiltDb {
+    use rbx_reflection::{ClassDescriptor, PropertyDescriptor};
+    let n = g.classes.len();
+    let mut chains: Vec<Vec<usize>> = Vec::new();
+    for i in 0..n {
+        let mut c = vec![i];
+        let mut cur = i;
+        while let Some(p) = g.classes[cur].parent {
+            c.push(p);
+            cur = p;
+        }
+        chains.push(c);
+    }
+    let mut declared_here: Vec<Vec<(u8, bool, bool)>> = vec![vec![]; n];
+    let mut visible: Vec<Vec<u8>> = vec![vec![]; n];
+    for i in 0..n {
+        let inherited: Vec<u8> = g.classes[i].parent.map(|p| visible[p].clone()).unwrap_or_default();
+        let mut vis = inherited.clone();
+        for (slot, alias, through) in &g.classes[i].declares {
+            if !vis.contains(slot) {
+                vis.push(*slot);
+                declared_here[i].push((*slot, *alias, *through));
+            }
+        }
+        visible[i] = vis;
+    }
+    let mut db = ReflectionDatabase::new();
+    for i in 0..n {
+        let mut cd = ClassDescriptor::new(format!("K{i}"));
+        cd.superclass = g.classes[i].parent.map(|p| format!("K{p}").into());
+        for (slot, alias, through) in &declared_here[i] {
+            let name = slot_name(*slot);
+            let ty = DataType::Value(SLOT_TYPES[*slot as usize % 6]);
+            let mut pd = PropertyDescriptor::new(name.clone(), ty.clone());
+            let alias_name = format!("prop{slot}_xml");
+            if *alias {
+                let mut ad = PropertyDescriptor::new(alias_name.clone(), ty);
+                ad.kind = PropertyKind::Alias { alias_for: name.clone().into() };
+                cd.properties.insert(alias_name.clone().into(), ad);
+                if *through {
+                    pd.kind = PropertyKind::Canonical { serialization: PropertySerialization::SerializesAs(alias_name.into()) };
+                }
+            }
+            cd.properties.insert(name.into(), pd);
+        }
+        for (slot, seed) in &g.classes[i].defaults {
+            if visible[i].contains(slot) {
+                cd.default_properties.insert(slot_name(*slot).into(), slot_value(*slot, *seed).to_variant(&|_| rbx_types::Ref::none(), rbx_types::Ref::none()));
+            }
+        }
+        db.classes.insert(format!("K{i}").into(), cd);
+    }
+    BuiltDb { db, chains, visible }
+}
+
+fn gen_db_body(g: &GenDb, ctx: &mut CaseCtx) -> PropResult {
+    let b = build_db(g);
+    let n = g.classes.len();
+    let depth = b.chains.iter().map(|c| c.len()).max().unwrap_or(0);
+    ctx.label(if depth >= 8 { "depth>=8" } else if depth >= 5 { "depth5-7" } else { "depth<5" });
+    // the generator's output is coherent: the coherence walk must agree (guards the generator itself)
+    let problems = coherence(&b.db);
+    ensure!(problems.is_empty(), "harness:generated-db-incoherent", "{:?}", problems.iter().take(3).collect::<Vec<_>>());
+    // (a) lookup API
+    let names: Vec<String> = (0..n).map(|i| format!("K{i}")).collect();
+    for name in &names {
+        api_agrees(&b.db, name, &names)?;
+    }
+    // (b) both codecs on this database: a class deep in a chain, one property visible there
+    let order: Vec<usize> = {
+        let mut o: Vec<usize> = (0..n).filter(|i| !b.visible[*i].is_empty()).collect();
+        o.sort_by_key(|i| std::cmp::Reverse(b.chains[*i].len()));
+        o
+    };
+    if order.is_empty() {
+        ctx.excluded("no class with a property");
+        return Ok(());
+    }
+    let t = order[(g.target_sel as usize * order.len().min(4)) >> 16];
+    let slot = b.visible[t][(g.slot_sel as usize * b.visible[t].len()) >> 16];
+    let pname = slot_name(slot);
+    let class = format!("K{t}");
+    let set_val = slot_value(slot, g.value_seed.wrapping_mul(2654435761) | 1 << 40);
+    let want_default: Option<GVal> = b.chains[t]
+        .iter()
+        .find_map(|c| g.classes[*c].defaults.iter().rev().find(|(s, _)| *s == slot && b.visible[*c].contains(s)).map(|(s, seed)| slot_value(*s, *seed)));
+    ctx.label_if(want_default.is_some(), "inherited_or_own_default_exists");
+    ctx.label_if(b.chains[t].len() >= 7, "target_chain>=7");
+    ctx.nontrivial_if(b.chains[t].len() >= 3);
+    let f = GForest {
+        nodes: vec![
+            GNode { parent: None, class: class.clone(), name: "sets".into(), props: vec![(pname.clone(), set_val.clone())] },
+            GNode { parent: None, class: class.clone(), name: "lacks".into(), props: vec![] },
+        ],
+        roots: vec![0, 1],
+    };
+    let built = forest::build(&f, BuildMode::Builder, None);
+    let roots = built.root_refs(&f);
+    // binary
+    let mut bytes = Vec::new();
+    let w = no_panic("rbx_binary serializer (generated database)", || {
+        rbx_binary::Serializer::new().reflection_database(&b.db).serialize(&mut bytes, &built.dom, &roots)
+    })?;
+    if let Err(e) = w {
+        fail!("db:generated:binary-write", "binary serializer rejects a {class} with {pname} under a coherent generated database: {e}");
+    }
+    let dom = no_panic("rbx_binary deserializer (generated database)", || rbx_binary::Deserializer::new().reflection_database(&b.db).deserialize(bytes.as_slice()))?
+        .map_err(|e| Fail::new("db:generated:binary-read", format!("binary reader rejects its own file under a coherent generated database: {e}")))?;
+    let seen = forest::observe(&dom);
+    ensure!(seen.roots.len() == 2, "db:generated:binary-shape", "{} instances came back", seen.roots.len());
+    ensure!(
+        seen.roots[0].props.get(&pname) == Some(&set_val),
+        "db:generated:binary-value",
+        "{class}.{pname} = {:?} came back as {:?} (all properties: {:?})",
+        set_val,
+        seen.roots[0].props.get(&pname),
+        seen.roots[0].props.keys().collect::<Vec<_>>()
+    );
+    if let Some(d) = &want_default {
+        ensure!(
+            seen.roots[1].props.get(&pname) == Some(d),
+            "db:generated:binary-default",
+            "a {class} without {pname} reads back {:?}; the nearest default along its chain ({} classes) is {:?}",
+            seen.roots[1].props.get(&pname),
+            b.chains[t].len(),
+            d
+        );
+    }
+    // XML
+    let mut text = Vec::new();
+    let w = no_panic("rbx_xml serializer (generated database)", || {
+        rbx_xml::to_writer(&mut text, &built.dom, &roots, rbx_xml::EncodeOptions::new().reflection_database(&b.db))
+    })?;
+    if let Err(e) = w {
+        fail!("db:generated:xml-write", "XML serializer rejects a {class} with {pname} under a coherent generated database: {e}");
+    }
+    let dom = no_panic("rbx_xml deserializer (generated database)", || rbx_xml::from_reader(text.as_slice(), rbx_xml::DecodeOptions::new().reflection_database(&b.db)))?
+        .map_err(|e| Fail::new("db:generated:xml-read", format!("XML reader rejects its own file under a coherent generated database: {e}")))?;
+    let seen = forest::observe(&dom);
+    ensure!(seen.roots.len() == 2, "db:generated:xml-shape", "{} instances came back", seen.roots.len());
+    ensure!(
+        seen.roots[0].props.get(&pname) == Some(&set_val),
+        "db:generated:xml-value",
+        "{class}.{pname} = {:?} came back from XML as {:?} (all properties: {:?})",
+        set_val,
+        seen.roots[0].props.get(&pname),
+        seen.roots[0].props.keys().collect::<Vec<_>>()
+    );
+    ctx.add_evals(n as u64);
+    Ok(())
+}
+
 pub fn run(ctx: &Ctx) -> PropertyReport {
     let mut rep = PropertyReport::new(
         "C16",
@@ -479,10 +790,12 @@ pub fn run(ctx: &Ctx) -> PropertyReport {
         "exhaustive walk over the reflection database compiled into rbx_reflection_database from the current working tree: superclass chains, aliases, serializes-as and migration targets, \
          enum references, defaults (known property, declared / serialized / documented-convertible type); every (class, property) driven through both codecs with a one-property instance \
          (no panic; the harness resolver's serialized name is the column name in the file); per class an instance populated with exactly its (inherited) defaults written and read back unchanged \
-         by both formats; rbx_dom_lua/src/database.json compared with the msgpack database. Generated part: random single corruptions of a cloned database must each be detected. \
+         by both formats; rbx_dom_lua/src/database.json compared with the msgpack database. The lookup API of rbx_reflection (superclasses, superclasses_iter, has_superclass, find_default_property) is compared with an own walk for every class. Generated part: (1) random coherent \
+         databases of 2-23 classes with chains up to 23 deep, aliases, serializes-as links and defaults at random levels - same API comparison, and a deep class written and read by both codecs under \
+         that database (own value kept, lacking instance gets the nearest default); (2) random single corruptions of a cloned database must each be detected. \
          Non-trivial = a class with defaults / a property lookup / a corruption that applies.",
     );
-    rep.assume("a database regenerated by rbx_reflector from a newer dump cannot be produced offline; the check is database-agnostic and exhaustive over whatever database the tree contains");
+    rep.assume("a database regenerated by rbx_reflector from a newer dump cannot be produced offline; the check is database-agnostic and exhaustive over whatever database the tree contains, and random coherent databases stand in for future ones");
     let db = dbview::db();
     let sub = crate::engine::replay_subcheck_or_all(ctx);
     if sub.runs("coherence") {
@@ -535,6 +848,20 @@ pub fn run(ctx: &Ctx) -> PropertyReport {
             }
         }
         rep.push(ctx.run_list("lookups", cases, true, lookup_body));
+    }
+    if sub.runs("api-walk") {
+        let cases: Vec<ApiCase> = if ctx.cfg.replay.is_some() { vec![] } else { dbview::all_class_names().into_iter().map(|class| ApiCase { class }).collect() };
+        let mut r = ctx.run_list("api-walk", cases, true, api_body);
+        r.notes.push("superclasses / superclasses_iter / has_superclass (against every class) / find_default_property (every visible name) of rbx_reflection compared with an own walk over the superclass links".into());
+        rep.push(r);
+    }
+    if sub.runs("generated-databases") {
+        let cases = ctx.cfg.cases(60_000, 1_500_000);
+        let mut r = ctx.run_prop("generated-databases", cases, gen_db_strategy, gen_db_body);
+        r.floor("depth>=8", cases / 20);
+        r.floor("target_chain>=7", cases / 20);
+        r.floor("inherited_or_own_default_exists", cases / 20);
+        rep.push(r);
     }
     if sub.runs("class-defaults") {
         let cases: Vec<ClassCase> = if ctx.cfg.replay.is_some() { vec![] } else { dbview::all_class_names().into_iter().map(|class| ClassCase { class }).collect() };
